@@ -78,7 +78,8 @@ def random_tree(rnd, f, size, shape="mixed", nsrich=False, parent=0, top_doc=Non
                 count += 1
                 if uri not in ("u1", "u2", "", XMLNS):
                     # ... and a name that lives in it
-                    if rnd.random() < 0.5:
+                    have = {(f.n[x - 1]["ns"], f.n[x - 1]["ln"]) for x in f.n[par - 1]["c"] if f.n[x - 1]["k"] == "attr"}
+                    if rnd.random() < 0.5 or (uri, "z") in have:       # (two prefixes may name the same namespace: one attribute z)
                         elems.append(f.add(node("elem", ns=uri, ln=rnd.choice(LNS)), par))
                     else:
                         f.add(node("attr", ns=uri, ln="z", t=cps("v")), par)
